@@ -277,7 +277,7 @@ class Batch:
         self.results = []
         self.violations = []
         self.counters = {"runs": 0, "decisions": 0, "choice_points": 0, "preemptions": 0, "gc_minor_injected": 0, "gc_full_injected": 0,
-                         "alloc_fail_injected": 0, "stw_operations": 0, "allocs": 0, "hot_taken": 0, "wall_in_runs": 0.0}
+                         "alloc_fail_injected": 0, "stw_operations": 0, "allocs": 0, "hot_taken": 0, "sweeps": 0, "wall_in_runs": 0.0}
         self.distinct = set()
         self.by = {}
         self.samples = []
@@ -301,7 +301,7 @@ class Batch:
         c = self.counters
         c["runs"] += 1
         st = res["stats"]
-        for k in ("decisions", "choice_points", "preemptions", "gc_minor_injected", "gc_full_injected", "alloc_fail_injected", "stw_operations", "allocs", "hot_taken"):
+        for k in ("decisions", "choice_points", "preemptions", "gc_minor_injected", "gc_full_injected", "alloc_fail_injected", "stw_operations", "allocs", "hot_taken", "sweeps"):
             c[k] += st.get(k, 0)
         c["wall_in_runs"] += res["wall"]
         for k, v in run.get("tags", {}).items():
